@@ -302,6 +302,9 @@ def check_valid(ctx, s, T, exp, meta, got):
         else:
             if got.get("natural_density") is None or not close(got["natural_density"], val, 1e-10):
                 return bad("NaturalDensityTag", got_density=got.get("natural_density"), want=val)
+            # '@<d>n': d is the density the compound would have with natural abundances in the same cell
+            if got.get("mass_natural") and (got["density"] is None or not close(got["density"], val * got["mass_written"] / got["mass_natural"], 1e-10)):
+                return bad("NaturalDensityTagMeansDensity", got_density=got["density"], want=val * got["mass_written"] / got["mass_natural"])
     elif len(exp) > 1 and got["density"] is not None:
         return bad("NoDensityWithoutTag", got_density=got["density"])
 
